@@ -327,3 +327,95 @@ func (s *Store) ProjUndeclared(i int) uint64 {
 
 // signed division by a variable
 func SignedDiv(a, b int) int { return a / b }
+
+// ---- sixth round (iter.go)
+
+type Box6 struct{ next *Box6 }
+
+type Src6 struct{ next *Src6 }
+
+func (s *Src6) All(buf []uint8) []uint8       { return buf }
+func (s *Src6) Try(k uint8, b *Box6) (*Box6, error) { return b, nil }
+
+type It6 struct {
+	src   *Src6
+	ks    []uint8
+	other []uint8
+	i     int
+	box   *Box6
+	seen  map[uint8]uint8
+	store struct{ slice []uint8 }
+}
+
+// a buffer read as a value
+func (it *It6) BufValue() int {
+	ks := it.store.slice
+	return len(ks)
+}
+
+// the old content of the buffer could reach the oracle's result
+func (it *It6) KeepsContent() int {
+	ks := it.store.slice
+	it.ks = it.src.All(ks)
+	return 0
+}
+
+// the nil-ness of the assigned value is unknown: the view ks.isNil would go stale
+func (it *It6) StaleNil() int {
+	if it.ks == nil {
+		it.ks = it.other
+	}
+	return 0
+}
+
+// ks is assigned but its declared nil-ness is an input only
+func (it *It6) NilInputOnly() int {
+	if it.ks == nil {
+		it.ks = it.src.All(it.store.slice[:0])
+	}
+	return 0
+}
+
+// the pointer an oracle returned is looked into
+func (it *It6) OpaqueUse() bool {
+	child, e := it.src.Try(1, it.box)
+	if e != nil {
+		return false
+	}
+	return child.next == nil
+}
+
+// two call sites that are given the same buffer
+func (it *It6) TwoSites() int {
+	a := it.src.All(it.store.slice[:0])
+	b := it.src.All(it.store.slice[:0])
+	return len(a) + len(b)
+}
+
+// a labelled break leaves the loop, not the switch
+func (it *It6) LabelledBreak() int {
+outer:
+	for {
+		switch it.i {
+		case 0:
+			break outer
+		}
+		it.i++
+		if it.i > 3 {
+			return it.i
+		}
+	}
+	return 0
+}
+
+// comma-ok into an element
+func (it *It6) CommaOkElem() bool {
+	var ok bool
+	it.ks[0], ok = it.seen[1]
+	return ok
+}
+
+// a method that is neither translated nor a declared oracle
+func (it *It6) Undeclared() int {
+	return len(it.src.All(it.store.slice[:0]))
+}
